@@ -36,6 +36,7 @@ type c21Harness struct {
 	tn   []string
 	pn   []string
 	ev   []c21Field
+	kf   []string
 	cfg  *config.MockConfig
 	done bool
 	res  map[string]c21Res
@@ -80,7 +81,11 @@ func (h *c21Harness) Reset(init map[string]any) error {
 			h.ev = append(h.ev, c21Field{N: verifkit.Str(m, "n"), Ty: verifkit.Str(m, "ty")})
 		}
 	}
-	h.cfg = &config.MockConfig{TraceIdFieldNames: h.tn, ParentIdFieldNames: h.pn}
+	// the sampler of the event's destination: its key fields always include an
+	// ordinary field and, per inp.kf, some of the ID fields themselves
+	h.kf = append([]string{"c21.svc"}, c21Strings(inp["kf"])...)
+	h.cfg = &config.MockConfig{TraceIdFieldNames: h.tn, ParentIdFieldNames: h.pn,
+		Samplers: map[string]*config.V2SamplerChoice{"__default__": {DynamicSampler: &config.DynamicSamplerConfig{SampleRate: 1, FieldList: h.kf}}}}
 	h.done = false
 	h.res = map[string]c21Res{}
 	return nil
